@@ -24,7 +24,9 @@ type FTask struct {
 	Deps    []string `json:"deps,omitempty"`
 	Cmds    []int    `json:"cmds"`
 	// How a failing command fails: "" the shell's own `exit N`; "ext": an external program
-	// exiting N; "sig": an external program killed by a signal; "false": /bin/false
+	// exiting N; "sig": an external program killed by a signal; "false": /bin/false; "noexec": a
+	// program the system refuses to start (executable bit set, neither a script nor a binary);
+	// "badinterp": a script whose #! line names an interpreter that does not exist
 	How []string `json:"how,omitempty"`
 }
 
@@ -33,7 +35,9 @@ type FailCase struct {
 	// ProjDir names the directory holding the spokfile ("" = proj)
 	ProjDir string `json:"proj_dir,omitempty"`
 	// Invoke: how spok is pointed at the project (sandbox.Box.Invoke)
-	Invoke  string   `json:"invoke,omitempty"`
+	Invoke string `json:"invoke,omitempty"`
+	// Outputs: "files" = standard output and error are regular files (sandbox.Box.FileOutputs)
+	Outputs string   `json:"outputs,omitempty"`
 	Tasks   []FTask  `json:"tasks"`
 	Request []string `json:"request"`
 	Flags   []string `json:"flags"`
@@ -60,6 +64,7 @@ func genFail(t *rapid.T) FailCase {
 	c := genFailBody(t)
 	c.ProjDir = genProjDir(t)
 	c.Invoke = genInvoke(t)
+	c.Outputs = genOutputs(t)
 	if !c.Prime && rapid.IntRange(0, 2).Draw(t, "stale_cache") == 0 {
 		c.StaleCache = true
 	}
@@ -93,7 +98,7 @@ func genFailBody(t *rapid.T) FailCase {
 				anyFail = true
 			}
 			ft.Cmds = append(ft.Cmds, st)
-			ft.How = append(ft.How, rapid.SampledFrom([]string{"", "", "ext", "sig", "false"}).Draw(t, "how"))
+			ft.How = append(ft.How, rapid.SampledFrom([]string{"", "", "ext", "sig", "false", "noexec", "badinterp"}).Draw(t, "how"))
 			if st != 0 && k < nc-1 && rapid.IntRange(0, 5).Draw(t, "then_unrunnable") == 0 {
 				// the next command line is not valid shell: spok gives up on the task with an error of its own
 				ft.Cmds = append(ft.Cmds, -1)
@@ -175,6 +180,10 @@ func (c FailCase) source() string {
 					fail = "sh -c 'kill -9 $$'"
 				case "false":
 					fail = "false"
+				case "noexec":
+					fail = "\"$TOOLS/garbage\""
+				case "badinterp":
+					fail = "\"$TOOLS/badinterp\""
 				}
 				fmt.Fprintf(&b, "    echo %s >> $LOG; [ -z \"$ARMED\" ] || %s\n", marker(ti, ci), fail)
 			}
@@ -202,12 +211,19 @@ func execFail(s *ev.Shard, b *sandbox.Box, c FailCase) *rp.Fail {
 	if err := b.ResetFor(c.ProjDir, c.Invoke); err != nil {
 		return &rp.Fail{Sig: "harness", Msg: err.Error()}
 	}
+	b.FileOutputs = c.Outputs == "files"
 	src := c.source()
 	if err := writeProject(b, b.Proj, map[string]string{"spokfile": src, "in.txt": "input", "gone.txt": "soon gone"}); err != nil {
 		return &rp.Fail{Sig: "harness", Msg: err.Error()}
 	}
+	tools := filepath.Join(b.Home, "tools")
+	if err := writeProject(b, b.Home, map[string]string{"tools/garbage": "\x01\x02 neither a script nor a binary\n", "tools/badinterp": "#!/no/such/interpreter\necho hi\n"}); err != nil {
+		return &rp.Fail{Sig: "harness", Msg: err.Error()}
+	}
+	_ = os.Chmod(filepath.Join(tools, "garbage"), 0o755)
+	_ = os.Chmod(filepath.Join(tools, "badinterp"), 0o755)
 	logPath := filepath.Join(b.Home, "run.log")
-	env := []string{"LOG=" + logPath}
+	env := []string{"LOG=" + logPath, "TOOLS=" + tools}
 	size := len(c.Tasks)*3 + len(c.Request) + len(c.Flags)
 	for _, t := range c.Tasks {
 		size += len(t.Cmds)
